@@ -364,6 +364,29 @@ class Interp(object):
         groups = {}
         for t in d.tags:
             groups.setdefault(field_type(t, name), set()).add(t)
+        if len(groups) > 1 and None in groups:
+            # classes without the field are split off first (AttributeError path)
+            has = set().union(*[g for k, g in groups.items() if k is not None])
+            i = self.split_tags(obj, [has, groups[None]], 'hasfield_' + name)
+            groups = dict((k, g) for k, g in groups.items() if (k is None) == (i == 1))
+        if len(groups) > 1 and all(k is not None and k[1] == '' and k[0] not in ('identifier', 'string', 'int', 'constant') for k in groups):
+            # one child node whose class depends on the parent's class: no fork
+            import ast as real_ast
+            union = set()
+            per = []
+            for (ty, q), g in sorted(groups.items()):
+                cl = tags_of_class(getattr(real_ast, ty))
+                if self.policy is not None:
+                    cl = self.policy.child_classes(self, obj, name, None, cl)
+                union |= cl
+                per.append((g, cl))
+            child = ctx.new_node(union, name='%s.%s' % (d.name, name), origin=(obj, name, None))
+            cd = ctx.data(child)
+            for g, cl in per:
+                ctx.assume(z3.Implies(z3.Or([d.tagvar == tag_const(t) for t in sorted(g)]),
+                                      z3.Or([cd.tagvar == tag_const(t) for t in sorted(cl)])))
+            d.fields[name] = child
+            return child
         keys = sorted(groups, key=lambda k: (k is None, k))
         idx = self.split_tags(obj, [groups[k] for k in keys], 'field_' + name)
         ft = [k for k in keys if groups[k]][idx] if len([k for k in keys if groups[k]]) > 1 else keys[0]
